@@ -29,6 +29,33 @@ class Facts:
                 text = _re.sub(r"(?<![A-Za-z0-9_:])" + _re.escape(real) + r"(?![A-Za-z0-9_])", canon, text)
             self.raw = json.loads(text)
         self.moved_types = moved
+        self._index()
+        # the evaluation context is crate-private and may be renamed freely: it is the type behind the `&mut`
+        # parameter of the recursive evaluator, and is mapped to the name the rules use
+        ctx_canon = "expr::eval::context::EvalContext"
+        try:
+            import evalsum
+            ev = evalsum.find_evaluator(self)
+            real = None
+            if ev:
+                fb = self.bodies[ev[0]]
+                for i in range(1, fb["arg_count"] + 1):
+                    t = self.types[fb["locals"][i]["ty"]]
+                    if t["k"] == "ref" and t["s"].startswith("&mut "):
+                        ad = self.adt_of(t["inner"])
+                        if ad and ad != "expr::Expr" and self.adts.get(ad, {}).get("local"):
+                            real = ad
+            if real and real != ctx_canon and ctx_canon not in self.adts:
+                import re as _re
+                text = json.dumps(self.raw)
+                text = _re.sub(r"(?<![A-Za-z0-9_:])" + _re.escape(real) + r"(?![A-Za-z0-9_])", ctx_canon, text)
+                self.raw = json.loads(text)
+                self.moved_types[real] = ctx_canon
+                self._index()
+        except ImportError:
+            pass
+
+    def _index(self):
         self.types = self.raw["types"]
         self.bodies = {}
         for b in self.raw["bodies"]:
